@@ -225,7 +225,9 @@ def weave_fn(src, fc):
             continue
         if ins.mode == 'end':
             # after the last statement of a unit-returning body
-            edits.append((body_close, '\n' + txt + '\n'))
+            prev = msk[body_open + 1:body_close].rstrip()
+            sep = ';' if prev and prev[-1] not in ';}' else ''
+            edits.append((body_close, sep + '\n' + txt + '\n'))
             continue
         if ins.mode == 'tail':
             # before the final expression of the body: after the last `;` at brace depth 0
